@@ -27,11 +27,15 @@ NestMembersT == <<{Mem(k, l) : k \in {"meth", "usep", "user"}, l \in {"published
 
 \* --- files: two files, two classes related by base / signature / data member, one command
 FileSrcs == {"cmd", "cwd", "adj", "I", "S", "Sangle", "Icmd"}
-FileHeads == {<<"class", FALSE, FALSE>>, <<"class", FALSE, TRUE>>}
-FileMembers == <<{Mem("meth", "published"), Mem("meth", "public"), Mem("usep", "published"), Mem("datap", "published")}, {}>>
+FileHeads == {<<"class", FALSE, FALSE>>}
+FileMembers == <<{Mem("meth", "published"), Mem("usep", "published"), Mem("datap", "published")}, {}>>
 FileBases == {<<"public", FALSE>>, <<"private", FALSE>>}
-FileTops == {Top("usef", TRUE, FALSE), Top("tdefc", FALSE, FALSE)}
-FileCmds == {"ignorefile", "forcetype", "ignoretype", "ignoreinvolved"}
+FileCmds == {"ignorefile", "forcetype"}
+\* --- filetops: a class (possibly in a namespace) and one namespace-scope declaration, two files, one command
+FTHeads == {<<"class", FALSE, FALSE>>, <<"class", FALSE, TRUE>>}
+FTMembers == <<{Mem("meth", "published"), Mem("meth", "public")}, {}>>
+FTTops == {Top("usef", TRUE, FALSE), Top("tdefc", FALSE, FALSE), Top("func", TRUE, FALSE), Top("var", TRUE, FALSE), Top("macro", TRUE, FALSE)}
+FTCmds == {"ignorefile", "forcetype", "ignoretype", "ignoreinvolved"}
 
 \* --- tops: namespace-scope declarations of every kind, in and out of publish regions / namespaces
 TopKinds == {"func", "sfunc", "dfunc", "tfunc", "rfunc", "var", "macro", "fmacro"}
@@ -41,7 +45,8 @@ TopSrcs == {"cwd", "I", "S"}
 
 \* --- commands on members
 CmdHeads == {<<"class", FALSE, FALSE>>}
-CmdMembers == <<{Mem(k, l) : k \in {"meth", "smeth", "data", "dtor", "ctor", "usep", "gct"}, l \in {"published", "public"}}, {}>>
+CmdMembers == <<{Mem(k, "published") : k \in {"meth", "data", "dtor", "usep"}} \cup {Mem("gct", "public")}, {}>>
+CmdMembersT == <<{Mem(k, l) : k \in {"meth", "smeth", "data", "dtor", "ctor", "usep", "gct"}, l \in {"published", "public"}}, {}>>
 CmdAll == {"ignoremember", "ignoretype", "ignoreinvolved", "forcetype"}
 
 M40 == <<4, 0>>
@@ -50,6 +55,7 @@ M20 == <<2, 0>>
 M32 == <<3, 2>>
 M22 == <<2, 2>>
 M00 == <<0, 0>>
+M10 == <<1, 0>>
 
 None == {}
 NestCS == {"class", "struct"}
@@ -62,15 +68,15 @@ WFRefs ==
        (NeedsRef(m.k) /\ Cls(m.rc).outer # 0 /\ Cls(m.rc).outer # c) => Rank(ClassVis(m.rc)) <= 1
   /\ \A t \in 1..NT : LET d == lib.tops[t] IN
        (NeedsRef(d.k) /\ Cls(d.rc).outer # 0) => Rank(ClassVis(d.rc)) <= 1
-  \* a command-line file that is not #included cannot see / be seen: no cross references then
-  /\ \A c \in 1..NC : \A b \in 1..Len(Cls(c).bases) : TRUE
+  \* one destructor, one get_class_type, one constructor signature per class (valid C++)
+  /\ \A c \in 1..NC : \A k \in {"dtor", "gct", "ctor"} : Cardinality({i \in 1..NM(c) : Mbr(c, i).k = k}) <= 1
 
 SetToSeq(S) == CHOOSE s \in [1..Cardinality(S) -> S] : \A i, j \in 1..Cardinality(S) : i # j => s[i] # s[j]
 
 Expected ==
   [known |-> RKnown, defined |-> RDefined, callable |-> RCallable,
    dtor |-> {c \in 1..NC : CT(c) \in RDefined /\ HasDtor(c)},
-   global |-> {x \in RKnown : IsClassT(x) /\ (Definable(x.c) \/ x \in Roots)}]
+   global |-> RGlobal]
 
 DumpConstraint ==
   /\ WFRefs
